@@ -1,7 +1,8 @@
 """C18 - mode-shape indicators are bounded, scale-invariant and exact on collinear shapes.
 
 gen.MAC / MPC / MPD / MCF / MSF on every vector of small integer alphabets (real {-2..2}^n, Gaussian integers), on
-payload vectors with 8/16/64 components and on nearly collinear shapes, each under every complex scale of a catalogue
+payload vectors with 8/16/64 components, on nearly collinear shapes and on NEARLY UNIFORM shapes (all components within a relative
+spread 1e-2..1e-8 of a common mean: almost rigid-body translations), each under every complex scale of a catalogue
 (5 moduli x 6 phases), raw and re-normalised to a unit component; MAC matrices on every pair of 2-shape sets over a
 Gaussian-integer alphabet against the textbook definition. Dtype axis: the same values handed over as int64 / int32 / float32 /
 float64 / complex64 / complex128 arrays (every dtype that holds the values, every ordered pair of dtypes for the two arguments of
@@ -29,7 +30,7 @@ TECHNIQUE = ("bounded-exhaustive enumeration of mode shapes over small integer a
              "before/after comparison of the array arguments, and the full lattice (shape) x (ordered pair / triple of indicators) of call "
              "sequences on the same array objects, (set of shapes) x (memory layout) x (ordered pair of set / column-view operations)")
 LEVEL_TEXT = ("every vector of the stated alphabets under every scale of the catalogue is evaluated on the real functions; "
-              "input classes (collinear, constant base vector, zero components, isotropic) are decided from the input; on the dtype axis "
+              "input classes (collinear, constant base vector, nearly uniform = non-constant with a relative spread down to 1e-8, zero components, isotropic) are decided from the input; on the dtype axis "
               "every admissible dtype (pair) of every listed shape / pair of sets is evaluated, admissibility decided from the values; every "
               "ordered pair of indicators (triples on payload shapes) is executed as a call sequence on the same array objects of every listed "
               "shape and set, and every library call of the check is followed by a comparison of its arguments with their state before the call")
@@ -51,6 +52,15 @@ ASSUMPTIONS = [
     "finding (class MPC:constant-base-vector, decided from the input); every other MPC failure is a violation",
     "nearly collinear shapes (v + 1e-9 w) are judged for bounds, finiteness and invariance only (the statement fixes values "
     "only for exactly collinear shapes); their base vectors v are non-constant",
+    "nearly uniform shapes (family 'uniform'): v = m (1 + s u), u a payload vector with 0.2 <= |u_i| <= 1 (all moduli distinct), relative spread s in "
+    "{1e-2, 1e-4, 1e-6, 1e-7, 1e-8}, mean m in {1, 0.37, -250}, 2..64 components; v is NOT constant (decided from the input: its components are "
+    "pairwise different doubles), so these shapes are exactly collinear and get the full judgement (MPC = 1, MPD = 0, MCF = 0, MAC = 1, bounds, "
+    "invariance under every scale of the catalogue, same tolerances as every other collinear shape) - only the limit s = 0 is the known finding; "
+    "the variant with a small non-collinear part, v + 1e-3 s m (w1 + i w2) (w payload, 1e-3 of the spread), is judged like the other nearly "
+    "collinear shapes (bounds, finiteness, invariance). Measured on the unchanged library before this family was added (seeds 0..2, every n, m, "
+    "scale): |MPC - 1| <= 4e-14 on the collinear variant at every spread down to 1e-8; MPC invariance of the non-collinear variant within 1.5e-11 "
+    "at s = 1e-7 and 1.8e-10 at s = 1e-8 (np.cov removes the mean first, the deviations carry a relative rounding error eps/s) - the latter is "
+    "within a factor 5 of the 1e-9 tolerance, so the non-collinear variant stops at s = 1e-7 and the collinear one goes down to 1e-8",
     "all-zero vectors are excluded (no indicator is defined)",
     "dtype axis: an indicator is a function of the values of a shape, not of the storage type of the array; a shape is cast only to "
     "dtypes that hold its values exactly (integer dtypes: integer-valued real shapes with |entries| <= 10, |c v| <= 180 in MSF, so that every integer "
@@ -83,6 +93,14 @@ GAUSS_Q = [0, 1, 1j, 2 - 1j]
 PAY_N = [8, 16, 64]
 PAY_REAL_VARIANTS = ["plain", "one-zero", "half-zeros", "rounded", "constant", "two-valued"]
 PAY_CPLX_VARIANTS = ["plain", "one-zero", "unit-moduli", "nearly-real"]
+# nearly uniform shapes m (1 + s u): relative spread s, mean m, number of components, exactly collinear / with a small non-collinear part
+UNI_SPREADS = [1e-2, 1e-4, 1e-6, 1e-7, 1e-8]
+UNI_NEAR_MIN_SPREAD = 1e-7      # smallest spread of the variant with a non-collinear part (see ASSUMPTIONS: measured margin of np.cov itself)
+UNI_NONCOL = 1e-3               # size of the non-collinear part relative to the spread
+UNI_MEANS = [1.0, 0.37, -250.0]
+UNI_N = [2, 3, 5, 16, 64]
+UNI_N_THOROUGH = [2, 3, 4, 5, 8, 16, 32, 64]
+UNI_KINDS = ["collinear", "non-collinear-part"]
 TOL_INV = 1e-9
 TOL_MPD = 1e-6
 TOL_COL = 1e-7
@@ -223,6 +241,14 @@ def build(seed, fam, spec):
             tag = f"p{n}"
         w = payload.entries(seed, f"c18/near/w/{tag}", (2, n), 0.2, 1.0)
         return v + 1e-9 * (w[0] + 1j * w[1]), None, {"near": True}
+    if fam == "uniform":
+        n, spread, mean, kind = spec
+        u = payload.entries(seed, f"c18/uni/{n}", (n,), 0.2, 1.0)
+        v = mean * (1.0 + spread * u)
+        if kind == "collinear":
+            return v.astype(complex), v, {"uniform": True}
+        w = payload.entries(seed, f"c18/uni/w/{n}", (2, n), 0.2, 1.0)
+        return v + (UNI_NONCOL * spread * mean) * (w[0] + 1j * w[1]), None, {"near": True, "uniform": True}
     raise ValueError(fam)
 
 
@@ -346,7 +372,7 @@ def judge_vector(t, seed, fam, spec, vid=None):
     if not phi0.any():
         return
     cls, zero = classify(phi0, base, info)
-    tag = cls + ("+zero" if zero else "")
+    tag = cls + ("+zero" if zero else "") + ("+nearly-uniform" if info.get("uniform") else "")
     case = {"route": "vector", "seed": seed, "fam": fam, "spec": spec}
     G.bind(t, case)
     nnz = int(np.count_nonzero(phi0))
@@ -528,6 +554,17 @@ def judge_vector(t, seed, fam, spec, vid=None):
         run_sequences(t, viol, lengths, v0, a0, lambda c, v0=v0: c * v0, sref, tol, msf_ok, label, len(phi0) + nnz + 7 * fi,
                       ids if nnz >= 2 else None)
     t.outcomes["vector-judged"] += 1
+    if info.get("uniform") and cls != "constant-base":
+        # vacuity monitors of the nearly uniform family: the shape was judged (not taken for a constant one), per spread / kind / size / mean
+        t.outcomes[f"uniform:{spec[3]}:spread={spec[1]:g}:judged"] += 1
+        t.outcomes[f"uniform:n={spec[0]}:judged"] += 1
+        t.outcomes[f"uniform:mean={spec[2]:g}:judged"] += 1
+        t.outcomes["uniform:MPC-judged-against-1" if cls == "collinear" else "uniform:MPC-judged-for-invariance"] += int("MPC" in ref)
+
+
+def uniform_space(thorough):
+    return [("uniform", [n, s, m, kind]) for kind in UNI_KINDS for s in UNI_SPREADS for n in (UNI_N_THOROUGH if thorough else UNI_N)
+            for m in UNI_MEANS if kind == "collinear" or s >= UNI_NEAR_MIN_SPREAD]
 
 
 # ---------------------------------------------------------------------------------------------
@@ -1232,6 +1269,7 @@ def vector_space(thorough):
                 out.append(("near", ["int", list(v)]))
     for n in PAY_N:
         out.append(("near", ["pay", n]))
+    out += uniform_space(thorough)
     return out
 
 
@@ -1287,6 +1325,10 @@ def explore(ctx):
         "gauss": f"all non-zero vectors over {[str(g) for g in GAUSS]}^n, n = " + ("2,3,4" if ctx.thorough else "2,3"),
         "payload vectors": {"n": PAY_N, "real variants": PAY_REAL_VARIANTS, "complex variants": PAY_CPLX_VARIANTS},
         "near-collinear": "v + 1e-9 (w1 + i w2), v over the non-constant vectors of {-2..2}^n (n = " + ("3,4" if ctx.thorough else "3") + ") and payload v with n = 8,16,64",
+        "nearly uniform": {"shape": "m (1 + s u), u payload with 0.2 <= |u_i| <= 1", "relative spread s": UNI_SPREADS, "mean m": UNI_MEANS,
+                           "n": UNI_N_THOROUGH if ctx.thorough else UNI_N,
+                           "kinds": {"collinear": "the real vector itself, times every scale of the catalogue (judged against MPC = 1, MPD = 0, MCF = 0, MAC = 1)",
+                                     "non-collinear-part": f"plus {UNI_NONCOL:g} s m (w1 + i w2), s >= {UNI_NEAR_MIN_SPREAD:g} (bounds, finiteness, invariance)"}},
         "scales": {"moduli": MODS, "phases": PHASES, "forms": ["raw", "normalised to a unit largest component"]},
         "MSF factors c": REAL_C,
         "MAC set pairs": {"alphabets": [{"symbols": [str(x) for x in a], "n": n} for a, n in alphabets], "ordered pairs of 2-shape sets": npairs,
@@ -1349,6 +1391,9 @@ def explore(ctx):
     ctx.require("class:collinear", "class:collinear+zero", "class:constant-base", "class:general", "class:general+zero",
                 "class:near-collinear", "class:isotropic(MPD invariance not judged)", "MSF:ok:c<0", "MSF:ok:c>0",
                 "MSF:outside-domain", "MAC:same-array-rescaled-in-place:ok", "macsets:ok", "macsets:asymmetric-matrix(orientation observable)", "vector-judged")
+    ctx.require("class:collinear+nearly-uniform", "class:near-collinear+nearly-uniform", "uniform:MPC-judged-against-1", "uniform:MPC-judged-for-invariance",
+                *[f"uniform:{kind}:spread={s:g}:judged" for kind in UNI_KINDS for s in UNI_SPREADS if kind == "collinear" or s >= UNI_NEAR_MIN_SPREAD],
+                *[f"uniform:n={n}:judged" for n in (UNI_N_THOROUGH if ctx.thorough else UNI_N)], *[f"uniform:mean={m:g}:judged" for m in UNI_MEANS])
     ctx.require("dtype:vector-judged", "dtype:class:collinear", "dtype:class:collinear+zero", "dtype:class:constant-base", "dtype:class:general",
                 "dtype:MSF:outside-domain",
                 *[f"dtype:{ind}:{cls}:ok" for ind in ("MAC", "MSF", "MCF", "MPC", "MPD") for cls in ("int-typed", "single", "double")],
